@@ -105,15 +105,16 @@ pub const GROUPS: &[(&str, &[(&str, &[Sel])])] = &[
             ],
         )],
     ),
-    // unreliable RECEIVE channel, message queue part only (struct view: the `BTreeMap` slice tables and the
-    // methods using them — `new`, `process_slice`, `discard_incomplete_old_slices` — are not translated yet)
     (
         "RecvUnrel",
         &[(
             "renet/src/channel/unreliable.rs",
             &[
-                Sel::StructView("ReceiveChannelUnreliable", &["channel_id", "messages", "max_memory_usage_bytes", "memory_usage_bytes"]),
+                Sel::Struct("ReceiveChannelUnreliable"),
+                Sel::Method("ReceiveChannelUnreliable", "new"),
                 Sel::Method("ReceiveChannelUnreliable", "process_message"),
+                Sel::Method("ReceiveChannelUnreliable", "process_slice"),
+                Sel::Method("ReceiveChannelUnreliable", "discard_incomplete_old_slices"),
                 Sel::Method("ReceiveChannelUnreliable", "receive_message"),
             ],
         )],
